@@ -55,7 +55,9 @@ def run(c):
                 k += 1
                 rid = "%s_%d" % (conn, k)
                 method = rnd.choice(["GET", "POST", "PUT", "DELETE", "PATCH", "OPTIONS", "HEAD"][:6])
-                target = rnd.choice(["/a", "/machine/plugins?comp=x&y=%2F", "/metadata/instance?api-version=2021-02-01", "/UPPER/Case", "/p/" + rid])
+                target = rnd.choice(["/a", "/machine/plugins?comp=x&y=%2F", "/metadata/instance?api-version=2021-02-01", "/UPPER/Case", "/p/" + rid,
+                                     # two dots in the QUERY are data (a range, a version span, a file name), literally or percent-encoded
+                                     "/blob/" + rid + "?range=0..4095", "/q?name=report..final.txt&tag=a%2E%2Eb", "/q?v=2.0.%2e3&x=%2e."])
                 blen = 0 if method in ("GET", "OPTIONS") else rnd.choice([0, 1, 7, 1024, 65536, 102400])
                 framing = "none" if blen == 0 and rnd.random() < 0.8 else rnd.choice(["cl", "chunked"])
                 hs = [["Host", dip], ["X-Token", rid]]
@@ -153,6 +155,24 @@ def run(c):
         branches.append([{"op": "connect", "conn": conn, "attr": {"uid": 0, "admin": 1, "dip": dip, "dport": dport}, "rcvbuf": 4096, "timeout_ms": 60000},
                          st, {"op": "close", "conn": conn}])
     c.extra["one_shot_slow_reader_exchanges"] = 3 if not thorough else 10
+    # a host that answers correctly but late (the request waits for something on the host: 11.5 s until the response head);
+    # the proxy has no timing of its own: that answer, and the next one on the same connection, are the host's
+    for li in range(1 if not thorough else 3):
+        conn = "late%d" % li
+        dip, dport, dname = dests[li % 3]
+        br = [{"op": "connect", "conn": conn, "attr": {"uid": 0, "admin": 1, "dip": dip, "dport": dport}}]
+        for k_, (delay, rlen) in enumerate([(11500 + 4000 * li, 700), (0, 50)]):
+            rid = "%s_%d" % (conn, k_ + 1)
+            hs = [["Host", dip], ["X-Token", rid]]
+            rhs = [["Content-Type", "text/plain"], ["X-Host", rid]]
+            br.append({"op": "request", "conn": conn, "id": rid, "method": "POST" if k_ == 0 else "GET", "target": "/late/" + rid, "headers": hs,
+                       "body": {"seed": 9, "len": 20 if k_ == 0 else 0}, "framing": "cl" if k_ == 0 else "none", "timeout_ms": 60000,
+                       "resp": {"status": 200 + k_, "headers": rhs, "body": {"seed": 40 + k_, "len": rlen}, "framing": "cl", "delay_ms": delay}})
+            meta[rid] = {"conn": conn, "k": k_ + 1, "method": "POST" if k_ == 0 else "GET", "target": "/late/" + rid, "headers": hs,
+                         "blen": 20 if k_ == 0 else 0, "bseed": 9, "status": 200 + k_, "rhs": rhs, "rlen": rlen, "rseed": 40 + k_, "dest": dname}
+        br.append({"op": "close", "conn": conn})
+        branches.append(br)
+    c.extra["late_answering_host_exchanges"] = 1 if not thorough else 3
     ev, d, _ = rig.run_rig({"steps": [{"op": "parallel", "branches": branches}], "drain_ms": 400}, "c14", timeout=900)
     recv_by_id, hseq, hconn_owner = {}, {}, {}
     for e in ev:
